@@ -130,7 +130,7 @@ mut('C03-03-sensitivity-simulator-built-without-protocol', MM,
     "        if new_sim and not self._has_sensitivities:\n            self._simulator.set_protocol(self._dosing_regimen)\n")
 mut('C03-04-hier-prior-gradient-added-to-bottom', LP,
     "        score += ll_score\n        sensitivities[self._n_bottom:] += sens\n\n        return score, sensitivities\n",
-    "        score += ll_score\n        sensitivities[-len(sens):] += sens[::-1] if len(sens) == 2 \\\n            else sens\n\n        return score, sensitivities\n")
+    "        score += ll_score\n        sensitivities[:len(sens)] += sens\n\n        return score, sensitivities\n")
 mut('C03-05-multiplicative-error-dsigma-sign', EM,
     None, None)  # placeholder resolved below
 
